@@ -543,12 +543,12 @@ func runC13(s *kernel.Sim, cfg string) {
 		case !l.faultsOn:
 		case cfg == "single":
 			if downloads-1 == singleAt {
-				f = simhttp.Fault(1 + t.Choose(9, "fault-kind"))
+				f = simhttp.Fault(1 + t.Choose(10, "fault-kind"))
 			}
 		case shortDeadline && t.Chance(1, 2, "stall-under-short-deadline"):
 			f = simhttp.Stall
 		case t.Chance(1, faultDen, "fault"):
-			f = simhttp.Fault(1 + t.Choose(9, "fault-kind"))
+			f = simhttp.Fault(1 + t.Choose(10, "fault-kind"))
 		}
 		param := 0
 		switch f {
@@ -564,7 +564,7 @@ func runC13(s *kernel.Sim, cfg string) {
 			if strings.HasPrefix(path, "/hash/") {
 				l.publishedJunk(path, longLine)
 			}
-		case simhttp.CutBody, simhttp.SlowBody:
+		case simhttp.CutBody, simhttp.SlowBody, simhttp.OtherSuccess:
 			param = t.Choose(200, "fault-param")
 		}
 		if f != simhttp.OK && f != simhttp.SlowBody {
